@@ -54,9 +54,13 @@ GenNext ==
 \* mandatory stratum (ACTION_CONSTRAINT of the Strata_* configurations): every session routes a read-only
 \* command and no two sessions route keys of the same shard
 ForeignReadsOnly ==
-  \A s, t \in Sessions :
-     /\ req'[s].kind \in {"-", "read"}
-     /\ (s # t /\ req'[s].sh # "-") => req'[s].sh # req'[t].sh
+  /\ \A s, t \in Sessions :
+        /\ req'[s].kind \in {"-", "read"}
+        /\ (s # t /\ req'[s].sh # "-") => req'[s].sh # req'[t].sh
+  \* ... and the decisions overlap by construction: nobody picks before everybody holds a half-built candidate list
+  \* (W_OverlapForeign is reached in every behaviour of the stratum, whatever the seed)
+  /\ \A s \in Sessions : (pc[s] = "build" /\ pc'[s] = "idle") =>
+        \A t \in Sessions : Deciding(t) \/ (pc[t] = "idle" /\ left[t] = 0 /\ req[t].kind = "read")
 
 \* stratum for run-time strategy changes: read-only commands only
 ReadsOnly == \A s \in Sessions : req'[s].kind \in {"-", "read"}
